@@ -15,8 +15,6 @@ structure StmtLaws (S : Sem) : Prop where
   incr_eq : ∀ dec v, S.arith (incrArith dec) v (S.numV .one) = some (S.incrBy dec v)
   incr_plus : ∀ dec v, S.incrBy dec (S.unop .plus v) = S.incrBy dec v
   set_get : ∀ sc a i x w, S.setArr sc a i x (S.getArr sc a i w).2 = S.setArr sc a i x w
-  get_key : ∀ sc a i i' w, (∀ x, S.setArr sc a i' x w = S.setArr sc a i x w) → S.getArr sc a i' w = S.getArr sc a i w →
-    (S.getArr sc a i' w).1 = (S.getArr sc a i w).1
 
 theorem cExprStmt_other (e : Expr) (h1 : ∀ lv r, e ≠ .assign lv r) (h2 : ∀ lv op r, e ≠ .augAssign lv op r)
     (h3 : ∀ lv d p, e ≠ .incr lv d p) : cExprStmt e = cExpr e ++ [.drop] := by
